@@ -109,7 +109,9 @@ CLAIMS = {
                      "pending table text with one entry cut in two (C03_tree_table_text_flush_ws_split_partial, "
                      "C03_tree_appends_split; not integrated into the list statement). NOT proved: cuts in the table-text "
                      "queue in general (queueing steps, foster-parenting branch of the flush), of tokens with a non-white-space character in the modes that split off leading white space "
-                     "(SplitWhitespace; plan in the header of TreeSplitEarly.v), "
+                     "(SplitWhitespace; plan in the header of TreeSplitEarly.v; of that plan only the cut at the end of the first "
+                     "run is proved, conditionally on the calls answering Ok and outside the list statement: "
+                     "C03_tree_run_boundary_split_partial, C03_tree_loop_queue_decomposition), "
                      "with foster parenting on or a template element as the current node - see the headers of "
                      "coq/Tree/TreeSplit.v and TreeSplitRun.v. Oracle: metamorphic chunking / script-injection "
                      "runs on the implementation (tokens, errors, lines, final tree). FUEL DISCHARGED for the default mode too (TokIR/BulkTerm.v, Inst/InstBulkTerm.v): the `regular` hypotheses of the C03_default_mode_* theorems are replaced by the explicit bound (T+1)(2T+10) on unread input + chunks + injectable text (C03_default_mode_run_is_regular, C03_default_mode_against_reference_total, C03_default_mode_is_reference_up_to_obs_total, C03_default_mode_chunking_independent_obs_total - the last still with the all_done hypotheses on the default-mode logs): a default-mode step is n >= 1 exact-mode steps, ended runs are fuel-monotone, EOF loops run in lock step, and the exact-mode chunked interpreter is the terminating reference one. With the no-panic theorem transported to the default mode the all_done hypotheses go too: C03_default_mode_chunking_independent_total (fresh tokenizer: fuel bounds + no driver pause limit 96 in the logs) and C03_default_mode_chunking_independent_no_pauses (sinks that never pause: fuel bounds only).",
